@@ -170,6 +170,11 @@ class Run:
                 simloop.run(self._run_async)
             else:
                 self._run_sync(kind)
+        except simgrpc.SimRunaway as e:
+            # not a harness error: the client under test exceeded every bound of the model
+            self.sim.max_events += 10
+            self.sim.history.append({"seq": len(self.sim.history), "t": round(CLOCK.now - simclock.EPOCH, 6),
+                                     "k": "runaway", "op": CURRENT_OP.get(), "msg": str(e)})
         finally:
             CLOCK.on_sleep = None
         return self.sim.history
@@ -459,3 +464,12 @@ def scripted_server(run):
             out["reply"] = values.to_dynamic(codec, m["output"], o.get("reply") or {}).SerializeToString(deterministic=True)
         return out
     return serve
+
+
+def runaway_violation(history):
+    """Shared oracle clause: a finite server script must lead to a finite call."""
+    ra = next((e for e in history if e["k"] == "runaway"), None)
+    if ra is None:
+        return None
+    return [{"rule": "runaway", "op": ra.get("op"), "msg": "the client kept issuing requests beyond every bound of the "
+             "model (" + str(ra.get("msg")) + "): a finite server script must lead to a finite call"}]
